@@ -314,7 +314,8 @@ Section ShamirProofs.
         + rewrite Hk. assumption.
         + unfold shares. apply in_map_iff. exists x. split; [reflexivity|assumption]. }
     specialize (HD 0). unfold D in HD. rewrite peval_padd, peval_pscale in HD.
-    apply fsub_eq_0. rewrite <- HD. ring.
+    symmetry. apply fsub_eq_0.
+    transitivity (peval cs 0 + (0 - 1) * peval (Ipoly xs shares) 0); [ring|exact HD].
   Qed.
 
   (** shamir_reveal: [coeffs] are the t-1 non-constant coefficients; any list of at least t
@@ -406,6 +407,13 @@ Section ShamirProofs.
 
     Fixpoint fpow (x : F) (k : nat) : F := match k with O => 1 | S k' => x * fpow x k' end.
 
+    Lemma fsum_map_pairs kxs cs l :
+      fsum (fun x => lagrange kxs x * peval cs x) l
+      = fsum (fun iv => lagrange kxs (fst iv) * snd iv) (map (fun x => (x, peval cs x)) l).
+    Proof.
+      induction l as [|x l IH]; [reflexivity|]. cbn [map fsum fold_right fst snd]. f_equal. exact IH.
+    Qed.
+
     Section Moments.
       Variable xs : list F.
       Hypothesis Hnd : NoDup xs.
@@ -434,8 +442,7 @@ Section ShamirProofs.
         fsum (fun x => lam x * peval cs x) xs = reveal (map (fun x => (x, peval cs x)) xs).
       Proof.
         rewrite reveal_fsum. rewrite map_map. cbn [fst]. rewrite map_id.
-        unfold lam. clear. induction xs as [|x l IH]; [reflexivity|]. cbn [map fsum fold_right fst snd].
-        f_equal. exact IH.
+        unfold lam. apply fsum_map_pairs.
       Qed.
 
       Lemma fsum_ext {A} (f h : A -> F) l : (forall a, f a = h a) -> fsum f l = fsum h l.
@@ -475,7 +482,7 @@ Section ShamirProofs.
         { induction l as [|x l IH]; intros a; cbn [map fold_left gsum fold_right fst snd].
           - rewrite gadd_0_l. reflexivity.
           - rewrite IH. fold (gsum (fun x => smul (lam x) (v x)) l). unfold lam.
-            rewrite (gadd_comm (smul (lagrange xs x) (v x))), <- gadd_assoc. reflexivity. }
+            rewrite gadd_assoc. f_equal. apply gadd_comm. }
         rewrite H. apply gadd_0_r.
       Qed.
 
